@@ -14,7 +14,8 @@
                           map (fun idx => elem (V (ravel (ext_of mask sh) (ext_of mask idx))) (int_of mask idx)) (all_indices sh)
      body_arity body      the oracle returns one value per output name (see the comment at its definition) *)
 From Verif Require Import Base.Prelude Base.Index Base.NdArr Model.MapSpec Model.MapSpecSpec Model.MapRun Model.MapDenote
-  Model.SymBody Proofs.IndexFacts Proofs.PlaceFacts Proofs.SelectFacts Proofs.MapRunFacts Proofs.C01Example.
+  Model.SymBody Proofs.IndexFacts Proofs.PlaceFacts Proofs.SelectFacts Proofs.MapRunFacts Proofs.C01Example Proofs.C01Corr.
+From Verif Require Corr.Run_C01.
 
 (* 1. placement: folding `place` (= _set_output through flat indices) over all linear indices fills the result
       array with exactly the target; in particular every position is written and no write lands elsewhere *)
@@ -73,6 +74,13 @@ Theorem C01_func_ok_side_conditions : forall f ms,
 Proof. exact func_ok_spec. Qed.
 Print Assumptions C01_func_ok_side_conditions.
 
+(* NOTE on `body_arity` (theorems 4-6).  FULL statement without it is false for a literally arbitrary oracle:
+   denote_mapped only reads nth_error outs j for j < #outputs, whereas run_mapped raises ValueError when
+   length outs <> #outputs; e.g. body := fun _ _ => Ok [VS "r"; VS "extra"], one function  x[i] -> y[i]  with
+   fouts = ["y"], x of shape [3]: request_ok = true, denote_run = Ok _, map_run = Err ValueError.
+   The hypothesis is a property of the oracle, which models `_pick_output(func, func( **kw))` and therefore has one
+   entry per output name by construction; every other aspect of `body` (values, errors, shapes) is arbitrary. *)
+
 (* 4. one mapped function ("map_step_denotes"): whenever the denotation is defined, the loop returns exactly the
       denoted arrays, both as result arrays and as stored arrays, after prod(ext) calls *)
 Theorem C01_run_mapped_denotes : forall body, body_arity body ->
@@ -111,6 +119,13 @@ Corollary C01_map_run_never_refuses : forall body, body_arity body ->
   forall e, map_run body p inputs user <> Err e.
 Proof. exact map_run_never_refuses. Qed.
 Print Assumptions C01_map_run_never_refuses.
+
+(* 6. link to the differential check: the observation of the model (Corr/Run_C01.run, with the structural user
+      function) satisfies the executable statement `spec_ok` that the harness applies to the implementation, for
+      EVERY case (the harness evaluates this on samples as `spec_failures_on_model`) *)
+Theorem C01_model_meets_spec : forall c, Run_C01.spec_ok c (Run_C01.run c) = true.
+Proof. exact model_meets_spec. Qed.
+Print Assumptions C01_model_meets_spec.
 
 (* the structural user function of the correspondence harness is such an oracle *)
 Theorem C01_sym_body_arity : body_arity sym_body.
